@@ -318,6 +318,7 @@ func runHashBytes(c *core.Ctx) {
 			continue
 		}
 		okCmp, found := false, false
+		comparedParses := map[*ssa.Call]bool{}
 		for _, b := range hs.fn.Blocks {
 			ifi := an.BlockIf(b)
 			if ifi == nil {
@@ -340,6 +341,7 @@ func runHashBytes(c *core.Ctx) {
 			for _, o := range an.Origins(other) {
 				if pc, idx := an.CallOf(o); pc != nil && idx == 0 && an.IsFunc(pc, digestPkg, "Parse") {
 					fromParse = true
+					comparedParses[pc] = true
 				}
 			}
 			if !fromParse {
@@ -398,7 +400,31 @@ func runHashBytes(c *core.Ctx) {
 			}
 		}
 		c.SetTags(append(append([]string{}, ftags...), "expected-digest")...)
+		// every digest the request declares takes part: a digest parsed from the request whose value is used (its
+		// algorithm chosen from it, say) but which never reaches the comparison declares content the handler does not hold
+		// the body to
+		var uncompared *ssa.Call
+		if found && hs.helper == nil {
+			for _, pc := range parsed {
+				if comparedParses[pc] {
+					continue
+				}
+				used := false
+				if pc.Referrers() != nil {
+					for _, ref := range *pc.Referrers() {
+						if ex, ok := ref.(*ssa.Extract); ok && ex.Index == 0 && ex.Referrers() != nil && len(*ex.Referrers()) > 0 {
+							used = true
+						}
+					}
+				}
+				if used && uncompared == nil {
+					uncompared = pc
+				}
+			}
+		}
 		switch {
+		case uncompared != nil:
+			c.Fail(base+":expected-digest", uncompared.Pos(), "the digest parsed from the request at %s is used but never reaches the comparison with the digest computed from the received bytes: the request can declare a digest the stored content does not have and is acknowledged all the same", c.P.Pos(uncompared.Pos()))
 		case !found:
 			c.Fail(base+":expected-digest", hs.from.Pos(), "%s parses a digest from the request but never compares it with the digest computed from the received bytes at %s: content would be accepted under a reference it does not hash to", name, c.P.Pos(hs.from.Pos()))
 		case !okCmp:
